@@ -326,6 +326,17 @@ func (w *World) typeID(t types.Type, d *Decls) int {
 			cmp = "true"
 		}
 		d.add(dk, fmt.Sprintf("; type %d = %s\n(assert (= (kindof %d) %d))\n(assert (= (tcomparable %d) %s))", id, key, id, kindOfType(t), id, cmp))
+		// structure of composite types (reflect.Type.Key / Elem)
+		switch u := t.Underlying().(type) {
+		case *types.Map:
+			d.add(dk+":struct", fmt.Sprintf("(assert (= (tkey %d) %d))\n(assert (= (telem %d) %d))", id, w.typeID(u.Key(), d), id, w.typeID(u.Elem(), d)))
+		case *types.Slice:
+			d.add(dk+":struct", fmt.Sprintf("(assert (= (telem %d) %d))", id, w.typeID(u.Elem(), d)))
+		case *types.Array:
+			d.add(dk+":struct", fmt.Sprintf("(assert (= (telem %d) %d))", id, w.typeID(u.Elem(), d)))
+		case *types.Pointer:
+			d.add(dk+":struct", fmt.Sprintf("(assert (= (telem %d) %d))", id, w.typeID(u.Elem(), d)))
+		}
 	}
 	return id
 }
